@@ -76,6 +76,9 @@ class Reflect:
             return self.ids[id(node)]
         if isinstance(node, NameNode) and node.loc is None and node.value.startswith("REPL"):
             return 900000 + int(node.value[4:])
+        from graphql.language import FieldNode
+        if isinstance(node, FieldNode) and node.loc is None and node.name is not None and node.name.value.startswith("REPL"):
+            return 900000 + int(node.name.value[4:]) - 2       # a replacement field REPL<100k>: alias REPL<100k+1>, name REPL<100k+2>
         if node.loc is not None:
             return self.by_loc.get((node.kind, node.loc.start, node.loc.end), -1)
         return -1
@@ -86,11 +89,33 @@ class Reflect:
         order = self.field_order.get(nid)
         if order is not None:      # keep the document order of the original node (replacements carry no location)
             ch.sort(key=lambda t: order.index(t[0]) if t[0] in order else len(order))
+        else:                      # a replacement node: its children in the order of the specification's tree (alias, name)
+            ch.sort(key=lambda t: t[0])
         return {"id": nid, "fields": [{"name": n, "kids": [self.shape(k) for k in kids]} for n, _m, kids, _p in ch]}
 
 
 def spec_shape(t):
     return {"id": t["id"], "fields": [{"name": f["name"], "kids": [spec_shape(k) for k in f["kids"]]} for f in t["fields"]]}
+
+
+def rep_tree(k, kind):
+    """the replacement a scripted visitor returns: a fresh name node, or a fresh field node with an alias and a name below it
+    (a node of another kind WITH children: the traversal continues into the replacement's own children)"""
+    if kind == "name":
+        return {"id": 900000 + k, "kind": "name", "fields": []}
+    b = 900000 + 100 * k
+    nm = lambda i: {"id": i, "kind": "name", "fields": []}      # noqa: E731
+    return {"id": b, "kind": "field", "fields": [{"name": "alias", "many": False, "kids": [nm(b + 1)]}, {"name": "name", "many": False, "kids": [nm(b + 2)]},
+                                                 {"name": "arguments", "many": True, "kids": []}, {"name": "directives", "many": True, "kids": []},
+                                                 {"name": "selection_set", "many": False, "kids": []}]}
+
+
+def make_rep(tree):
+    from graphql.language import NameNode, FieldNode
+    if tree["kind"] == "name":
+        return NameNode(value=f"REPL{tree['id'] - 900000}")
+    b = tree["id"] - 900000
+    return FieldNode(alias=NameNode(value=f"REPL{b + 1}"), name=NameNode(value=f"REPL{b + 2}"), arguments=(), directives=(), selection_set=None)
 
 
 def make_program(rng, refl, n_points):
@@ -107,8 +132,8 @@ def make_program(rng, refl, n_points):
         rep = norep
         obj = None
         if d == "replace":
-            rep = {"id": 900000 + k, "kind": "name", "fields": []}
-            obj = NameNode(value=f"REPL{k}")
+            rep = rep_tree(k + 1, rng.choice(["name", "field"]))
+            obj = make_rep(rep)
         prog.append({"ph": ph, "id": nid, "d": d, "rep": rep})
         table[(ph, nid)] = (d, obj)
     return prog, table
@@ -270,7 +295,7 @@ def _g_chunk(recs):
         refl = Reflect(root)
         table = {}
         for p in rec["prog"]:
-            obj = NameNode(value=f"REPL{p['rep']['id'] - 900000}") if p["d"] == "replace" else None
+            obj = make_rep(p["rep"]) if p["d"] == "replace" else None
             table[(p["ph"], p["id"])] = (p["d"], obj)
         log, result, raised = run_visit(root, refl, table)
         want = rec["want"]
